@@ -1,1 +1,66 @@
-From Verif Require Import Base Tokens Scanner Parser Algebra Tie.
+(* C02 -- the term algebra expands operators by Wilkinson-Rogers / lme4 set semantics.
+   Model: Model/Algebra.v (every operator overload of formulae/terms/terms.py, branch by branch,
+   Python TypeErrors included).  Specification: Spec/Wilkinson.v ([sem], lists as sets).
+   [documented] is the decidable fragment: response ~ right-hand side; the right-hand side is the
+   scanner's leading 1 followed by +/- items (intercept literals 1, 0, -1; plain operands built
+   from atoms with + - : * / ** n (n >= 2) and parentheses; group terms (effects | grouping));
+   on the effect side an intercept literal only as the leading item.  Excluded = listed findings
+   (KF-C02-5/6/7/10): each has a refuted witness below. *)
+From Verif Require Import Base Tokens Algebra Wilkinson AlgebraRefines.
+From Verif Require Tie.
+
+(* every documented formula is accepted and its model equals the expansion (as sets) *)
+Theorem C02_resolve_refines :
+  forall e, documented e = true ->
+    exists m s, describe e = Ok m /\ sem e = Some s /\ wf m /\ spec_equiv (abs m) s.
+Proof. exact resolve_refines. Qed.
+
+Theorem C02_resolve_total_on_documented :
+  forall e, documented e = true -> is_ok (describe e) = true.
+Proof. exact resolve_total_on_documented. Qed.
+
+(* operator laws on well-formed operands (L, R = the term sets the operands denote) *)
+Theorem C02_add_is_union : forall a b L R, Rp a L -> Rp b R -> exists v, v_add a b = Ok v /\ Rp v (L ++ R)%list.
+Proof. exact add_law. Qed.
+Theorem C02_sub_is_difference :
+  forall a b L R, Rp a L -> Rp b R -> exists v, v_sub a b = Ok v /\ Rp v (diff fset_eqb L R).
+Proof. exact sub_law. Qed.
+Theorem C02_colon_is_pairwise : forall a b L R, Rp a L -> Rp b R -> exists v, v_matmul a b = Ok v /\ Rp v (cross L R).
+Proof. exact colon_law. Qed.
+Theorem C02_star_law :
+  forall a b L R, Rp a L -> Rp b R -> exists v, v_mul a b = Ok v /\ Rp v (L ++ R ++ cross L R)%list.
+Proof. exact star_law. Qed.
+Theorem C02_slash_law :
+  forall a b L R, Rp a L -> Rp b R ->
+    exists v, v_div a b = Ok v /\ Rp v (L ++ map (app (List.concat L)) R)%list.
+Proof. exact slash_law. Qed.
+Theorem C02_power_law :
+  forall a L z, Rp a L -> (2 <= z)%Z -> exists v, v_pow a (expo z) = Ok v /\ Rp v (power L (Z.to_nat z)).
+Proof. exact power_law. Qed.
+Theorem C02_or_law :
+  forall a b C G, Reff a C -> Rp b G -> C <> [] ->
+    exists v, v_or a b = Ok v /\ Ritem v [] (list_prod C G).
+Proof. exact or_law. Qed.
+
+(* the statement over the larger fragment (group terms also inside parenthesised sums) is false of
+   the faithful model, exactly as of the real code: finding KF-C02-10 *)
+Theorem C02_full_statement_is_refuted : ~ C02_full_statement.
+Proof. exact C02_full_statement_refuted. Qed.
+
+(* witnesses of the listed findings: the specification gives a meaning, the code raises *)
+Example C02_refuted_effect_literal :
+  let e := ast "y ~ (x + 0 | g)" in
+  documented e = false /\ is_some (sem e) = true /\ describe e = Err EType.
+Proof. exact effect_literal_refuted. Qed.
+Example C02_refuted_bare_intercept :
+  let e := ast "y ~ 1 - a" in
+  documented e = false /\ is_some (sem e) = true /\ describe e = Err EType.
+Proof. exact bare_intercept_refuted. Qed.
+Example C02_refuted_power_one :
+  let e := ast "y ~ (a + b)**1" in
+  documented e = false /\ is_some (sem e) = true /\ describe e = Err EValue.
+Proof. exact power_one_refuted. Qed.
+
+Print Assumptions C02_resolve_refines.
+Print Assumptions C02_star_law.
+Print Assumptions C02_full_statement_is_refuted.
